@@ -80,6 +80,15 @@ def main() -> int:
         except Exception as exc:  # oracle broken: inconclusive, never a violation
             acc.inconclusive_because(f"oracle self-test failed: {exc!r}")
             raise
+        if args.shard % 2 == 1:
+            # the log level is part of the host environment: half of the workers run with DEBUG enabled
+            # (diagnostic lines are code too); records go to a handler that discards them
+            import logging
+
+            lg = logging.getLogger("aioswitcher")
+            lg.setLevel(logging.DEBUG)
+            lg.addHandler(logging.NullHandler())
+            lg.propagate = False
         reach.start(str(env.SRC))
         ctx = {"tier": args.tier, "seed": args.seed, "shard": args.shard, "nshards": args.nshards}
         reached = asyncio.run(_run(prop, args, acc, ctx))
